@@ -1,0 +1,66 @@
+//go:build verif
+// +build verif
+
+package builder
+
+// Contracts for package builder (consumed by /verif/govc; comment-only file).
+
+//@ func (*RuleBuilder).BuildRuleFromString$1
+//@   props C08
+//@   requires kc != nil && 0 <= i && i < len(kc.SortRules) && 0 <= j && j < len(kc.SortRules) && allNonNil(kc.SortRules)
+//@   returns kc.SortRules[i].Salience > kc.SortRules[j].Salience
+//@   modifies nothing
+//@   nopanic
+
+// full build (C08, C10): on success the installed container is the freshly parsed one, well formed; on any error
+// the installed container is untouched; success iff the text is non-blank and lexes, parses and walks cleanly
+//@ func (*RuleBuilder).BuildRuleFromString
+//@   props C08 C10
+//@   requires builder != nil && !held(builder.buildLock)
+//@   ensures [C10] agreement: (result == nil) <==> (!blank(ruleString) && !LexErrs(ruleString) && !SynErrs(ruleString) && !SemErrs(ruleString))
+//@   ensures [C10] allornothing: result != nil ==> builder.Kc == old(builder.Kc)
+//@   ensures [C08] installed: result == nil ==> fresh(builder.Kc) && wfKc(builder.Kc)
+//@   modifies builder.Kc
+//@   use collectsortindex(0, 1, kc.SortRules, kc.RuleEntities, kc.SortRulesIndexMap)
+//@   loop 0 invariant shape: kc != nil && fresh(kc) && wfParsed(kc) && kc.SortRulesIndexMap != nil && fresh(kc.SortRulesIndexMap) && emptymap(kc.SortRulesIndexMap) && builder.Kc == old(builder.Kc) && held(builder.buildLock)
+//@   loop 1 invariant shape: kc != nil && fresh(kc) && wfParsed(kc) && kc.SortRulesIndexMap != nil && fresh(kc.SortRulesIndexMap) && builder.Kc == old(builder.Kc) && held(builder.buildLock)
+
+//@ func (*RuleBuilder).RemoveRules$1
+//@   props C08
+//@   requires 0 <= i && i < len(newSortRuleEntities) && 0 <= j && j < len(newSortRuleEntities) && allNonNil(newSortRuleEntities)
+//@   returns newSortRuleEntities[i].Salience > newSortRuleEntities[j].Salience
+//@   modifies nothing
+//@   nopanic
+
+// removal (C08): the new container holds exactly the old entities whose names are not listed (same pointers), well formed
+//@ func (*RuleBuilder).RemoveRules
+//@   props C08
+//@   requires builder != nil && !held(builder.buildLock) && wfKc(builder.Kc)
+//@   ghost RE0 = builder.Kc.RuleEntities
+//@   ensures [C08] emptylist: len(ruleNames) == 0 ==> result != nil && builder.Kc == old(builder.Kc)
+//@   ensures [C08] installed: len(ruleNames) > 0 ==> result == nil && fresh(builder.Kc) && wfKc(builder.Kc)
+//@   ensures [C08] kept: len(ruleNames) > 0 ==> forall k: string :: (k in builder.Kc.RuleEntities) ==> (k in RE0) && builder.Kc.RuleEntities[k] == RE0[k] && (forall qi :: lo(ruleNames) <= qi && qi < hi(ruleNames) ==> at(ruleNames, qi) != k)
+//@   ensures [C08] removedonlynamed: len(ruleNames) > 0 ==> forall k: string :: (k in RE0) && !(k in builder.Kc.RuleEntities) ==> exists qi :: lo(ruleNames) <= qi && qi < hi(ruleNames) && at(ruleNames, qi) == k
+//@   modifies builder.Kc
+//@   loop 0 invariant shape: held(builder.buildLock) && builder.Kc == old(builder.Kc) && newRuleEntities != nil && fresh(newRuleEntities) && len(ruleNames) > 0
+//@   loop 0 invariant kept: forall k: string :: (k in newRuleEntities) ==> (k in visited) && (k in RE0) && newRuleEntities[k] == RE0[k] && (forall qi :: lo(ruleNames) <= qi && qi < hi(ruleNames) ==> at(ruleNames, qi) != k)
+//@   loop 0 invariant dropped: forall k: string :: (k in visited) && !(k in newRuleEntities) ==> exists qi :: lo(ruleNames) <= qi && qi < hi(ruleNames) && at(ruleNames, qi) == k
+//@   loop 1 invariant shape: held(builder.buildLock) && builder.Kc == old(builder.Kc) && newRuleEntities != nil && fresh(newRuleEntities) && len(ruleNames) > 0 && -1 <= rangeindex && rangeindex < len(ruleNames) && flag
+//@   loop 1 invariant notyet: forall qi :: lo(ruleNames) <= qi && qi <= lo(ruleNames) + rangeindex ==> at(ruleNames, qi) != lastkey
+//@   loop 1 invariant kept: forall k: string :: (k in newRuleEntities) ==> (k in visited) && k != lastkey && (k in RE0) && newRuleEntities[k] == RE0[k] && (forall qi :: lo(ruleNames) <= qi && qi < hi(ruleNames) ==> at(ruleNames, qi) != k)
+//@   loop 1 invariant dropped: forall k: string :: (k in visited) && k != lastkey && !(k in newRuleEntities) ==> exists qi :: lo(ruleNames) <= qi && qi < hi(ruleNames) && at(ruleNames, qi) == k
+//@   loop 1 decreases len(ruleNames) - rangeindex
+//@   use collectsortindex(2, 3, newSortRuleEntities, newRuleEntities, newSortRulesIndexMap)
+//@   loop 2 invariant shape: held(builder.buildLock) && builder.Kc == old(builder.Kc) && wfMap(newRuleEntities) && fresh(newRuleEntities) && len(ruleNames) > 0
+//@   loop 2 invariant view: (forall k: string :: (k in newRuleEntities) ==> (k in RE0) && newRuleEntities[k] == RE0[k] && (forall qi :: lo(ruleNames) <= qi && qi < hi(ruleNames) ==> at(ruleNames, qi) != k)) && (forall k: string :: (k in RE0) && !(k in newRuleEntities) ==> exists qi :: lo(ruleNames) <= qi && qi < hi(ruleNames) && at(ruleNames, qi) == k)
+//@   loop 3 invariant shape: held(builder.buildLock) && builder.Kc == old(builder.Kc) && wfMap(newRuleEntities) && fresh(newRuleEntities) && len(ruleNames) > 0 && newSortRulesIndexMap != nil && fresh(newSortRulesIndexMap)
+//@   loop 3 invariant view: (forall k: string :: (k in newRuleEntities) ==> (k in RE0) && newRuleEntities[k] == RE0[k] && (forall qi :: lo(ruleNames) <= qi && qi < hi(ruleNames) ==> at(ruleNames, qi) != k)) && (forall k: string :: (k in RE0) && !(k in newRuleEntities) ==> exists qi :: lo(ruleNames) <= qi && qi < hi(ruleNames) && at(ruleNames, qi) == k)
+
+//@ func (*RuleBuilder).IsExist
+//@   props C08
+//@   requires builder != nil && !held(builder.buildLock) && builder.Kc != nil
+//@   ensures [C08] agrees: len(result) == len(ruleNames) && (forall qi :: 0 <= qi && qi < len(ruleNames) ==> result[qi] == (ruleNames[qi] in builder.Kc.RuleEntities))
+//@   modifies nothing
+//@   loop 0 invariant sofar: held(builder.buildLock) && len(exist) == rangeindex + 1 && -1 <= rangeindex && rangeindex < len(ruleNames) && (isnil(exist) || fresh(arr(exist))) && lo(exist) == 0
+//@   loop 0 invariant agree: forall qi :: 0 <= qi && qi <= rangeindex ==> exist[qi] == (ruleNames[qi] in builder.Kc.RuleEntities)
+//@   loop 0 decreases len(ruleNames) - rangeindex
